@@ -1983,6 +1983,8 @@ matrix_rem_generic(PyObject *self, PyObject *other, int inplace)
     return (PyObject *)ret;
   }
   else {
+    if (id != id_self) PY_ERR_TYPE("invalid inplace operation");
+
     void *ptr = convert_mtx_alloc((matrix *)self, id);
     if (!ptr) return PyErr_NoMemory();
 
